@@ -17,7 +17,7 @@ func init() {
 		Explanation: "Decides structural necessary conditions of C20: (R-C20-1) store-owned bytes (the result of invoking a Secret) never reach reflect.ValueOf -- i.e. caller-owned memory -- without passing a copying operation (bytes.Clone, slices.Clone, append onto nil, conversion to string); read-only consumers (json.Unmarshal, UnmarshalBinary) are allowed; " +
 			"(R-C20-2) Fields.Secrets and Fields.Apply compute the full name with the same callee over the same two fields (path.Join(f.prefix, fi.secretName)), the name declared is the name looked up; (R-C20-3) the loop of Apply has no early exit and every non-nil field error flows into the returned errors.Join; " +
 			"(R-C20-4) the set of plain types accepted by parseFields equals the case set of the assignment switch in apply, every other non-JSON, non-unmarshaler type is rejected with an error, an empty tag name is rejected before the field is recorded, the pointer-to-struct test precedes every reflective access, and no tagged field yields ErrNoFields; " +
-			"(R-C20-7) the struct-tag plumbing keeps no package-level state (a parse result is bound to the struct value it was parsed from; only the reflect.Type constants and ErrNoFields are shared) and the json verb is recognised from the tag pieces after the name, never from the name itself; (R-C20-5) NewStore applies every parsed struct before it returns successfully and the struct-tagged names are merged into the declared list; (R-C20-6) string fields are filled by a []byte->string conversion and Secret fields receive the handle itself.",
+			"(R-C20-7) the struct-tag plumbing keeps no package-level state (a parse result is bound to the struct value it was parsed from; only the reflect.Type constants and ErrNoFields are shared) and the json verb is recognised from the tag pieces after the name, never from the name itself; (R-C20-5) NewStore applies every parsed struct before it returns successfully and the struct-tagged names are merged into the declared list; (R-C20-6) string fields are filled by a []byte->string conversion and Secret fields receive the handle itself; (R-C20-8) the handle given to a field reads the entry stored under its name at each call; (R-C20-9) parseFields looks up the tag of every visible field and a field whose tag is present is appended or makes it return an error.",
 		NotDecided:  "Behaviour over arbitrary run-time struct shapes (reflection); what a user's UnmarshalBinary does with the slice it is handed.",
 		Trusted:     append([]string{"bytes.Clone / slices.Clone / string(b) copy", "BinaryUnmarshaler's contract requires copying"}, commonTrusted...),
 		Assumptions: []string{},
@@ -381,6 +381,9 @@ func runC20(c *eng.Ctx, tier string) {
 	c20Types(c, parse, apply)
 	c20NoSharedState(c, []*ssa.Function{parse, apply, fApply, fSecrets, p.Func(setecPkg, "ParseFields"), anchor(p, setecPkg, "checkUnmarshal")})
 	c20Verb(c, parse)
+	// a Secret-typed field (and every later Apply) reads the entry currently stored under its name
+	handleBoundToName(c, "R-C20-8")
+	c20EveryTaggedField(c, parse)
 
 	// R-C20-5
 	if ns := p.Func(setecPkg, "NewStore"); ns != nil {
@@ -799,5 +802,81 @@ func c20Verb(c *eng.Ctx, parse *ssa.Function) {
 	})
 	if n == 0 {
 		c.Undecided("R-C20-7", parse, parse.Pos(), "store to fieldInfo.isJSON", "not found")
+	}
+}
+
+// c20EveryTaggedField: R-C20-9.  "Every field with a setec tag" is plumbed or
+// rejected: in the loop of parseFields over the visible fields nothing skips a
+// field before its tag has been looked up, and from the present edge of that
+// lookup every path appends an entry or returns an error before the next
+// field is taken.
+func c20EveryTaggedField(c *eng.Ctx, parse *ssa.Function) {
+	p := c.P
+	if parse == nil {
+		return
+	}
+	var loop *eng.RangeLoop
+	for _, rl := range eng.RangeLoops(parse) {
+		if call, _ := eng.TupleCall(rl.Slice); call != nil && eng.CalleeIs(&call.Call, "reflect", "VisibleFields") {
+			r2 := rl
+			loop = &r2
+		}
+	}
+	var tag *ssa.Call
+	eng.Instrs(parse, func(in ssa.Instruction) {
+		if call, ok := in.(*ssa.Call); ok && eng.CalleeIs(&call.Call, "reflect", "StructTag.Lookup") {
+			if k, isK := eng.ConstString(call.Call.Args[len(call.Call.Args)-1]); isK && k == "setec" {
+				tag = call
+			}
+		}
+	})
+	if loop == nil || tag == nil || !loop.InLoop(tag.Block()) {
+		c.Undecided("R-C20-9", parse, parse.Pos(), "loop over reflect.VisibleFields with a Tag.Lookup(\"setec\")", "not found in this form")
+		return
+	}
+	isTag := func(x ssa.Instruction) bool { return x == ssa.Instruction(tag) }
+	atHeader := func(x ssa.Instruction) bool { return x.Block() == loop.Header }
+	hit, path := eng.SearchBlock(parse, loop.Body, nil, isTag, atHeader)
+	if loop.Body.Instrs[0] == ssa.Instruction(tag) {
+		hit = nil
+	}
+	c.Check(hit == nil, "R-C20-9", parse, tag.Pos(), "fields examined by parseFields", "every visible field has its setec tag looked up (embedded, unexported-looking or oddly typed fields included: a tagged field is never passed over unseen)", func() string {
+		if hit == nil {
+			return ""
+		}
+		return "a field can be skipped before its tag is read: " + p.PathStr(path)
+	}())
+	var present ssa.Value
+	for _, r := range *tag.Referrers() {
+		if ex, ok := r.(*ssa.Extract); ok && ex.Index == 1 {
+			present = ex
+		}
+	}
+	if present == nil {
+		c.Bad("R-C20-9", parse, tag.Pos(), eng.CallStr(&tag.Call), "the presence result of the tag lookup decides whether the field is plumbed", "the ok result is unused")
+		return
+	}
+	isAppend := func(x ssa.Instruction) bool {
+		args, ok := eng.BuiltinCall(x, "append")
+		if !ok || len(args) == 0 {
+			return false
+		}
+		sl, _ := args[0].Type().Underlying().(*types.Slice)
+		return sl != nil && eng.IsNamed(sl.Elem(), setecPkg, "fieldInfo")
+	}
+	hit2, path2 := eng.Search(parse, tag, eng.AssumeBool(present, true), func(x ssa.Instruction) bool { return isAppend(x) || eng.IsReturn(x) }, atHeader)
+	c.Check(hit2 == nil, "R-C20-9", parse, tag.Pos(), "tagged fields in parseFields", "a field whose tag is present is appended to the result or makes parseFields return (an error): it is never silently dropped", func() string {
+		if hit2 == nil {
+			return ""
+		}
+		return "the next field is reached with neither: " + p.PathStr(path2)
+	}())
+	// ... and such a return is an error
+	for _, r := range eng.Returns(parse) {
+		if !loop.InLoop(r.Block()) {
+			continue
+		}
+		rv := eng.RetVals(r)
+		c.Check(nonNilAt(rv[len(rv)-1], eng.FactsAt(r)) == eng.Yes, "R-C20-9", parse, r.Pos(), eng.InstrStr(r), "leaving the field loop early is an error return", "may return nil error from inside the loop")
 	}
 }
